@@ -34,13 +34,15 @@ INPUTS = [
     {"uid": 1, "org": "1", "f": 1, "g": 3},
     {"uid": "1", "org": 1, "f": 1, "g": 3},
     {"uid": "é", "org": None, "f": 0, "g": 0},
+    {"uid": True, "org": "1", "f": 1, "g": 3},
+    {"uid": 1.0, "org": "1", "f": 1, "g": 3},
     {"uid": 11, "org": "", "f": 1, "g": 9},
 ]
 
 
 def spec_for(tier):
     if tier == "quick":
-        return xlife.Spec(TEXTS, INPUTS[:3], slots=2, depth=3, reissue=False)
+        return xlife.Spec(TEXTS, INPUTS[:5], slots=2, depth=3, reissue=False)
     return xlife.Spec(TEXTS, INPUTS, slots=3, depth=4, reissue=True)
 
 
